@@ -24,6 +24,7 @@ ASSUMPTIONS = [
     "transforms with [B,d] and [S,K,d] inputs are additionally covered by C07 (reported log-determinant shapes)",
 ]
 BUDGET = {"quick": 85, "thorough": 900}
+ROUNDS = {"thorough": 6}
 FLOORS = {"slices_compared": {"quick": 4000, "thorough": 40000}, "returned_numbers": {"quick": 600, "thorough": 6000}, "targets": 40, "must_return_checked": 10}
 
 # fully batched [S] evaluations that must return numbers (the library's own *_batch tests cover these classes)
